@@ -1,7 +1,7 @@
 """C10 Five mode stream objects equal NIST SP 800-38A; decryptors invert encryptors."""
 from . import mode_rules, aes_rules
 LEVEL = 'proof'
-RULES = ('R10.s', 'R10.d', 'R10.i', 'R10.v', 'R10.c', 'R10.h', 'R03.c', 'R09.k')
+RULES = ('R10.s', 'R10.d', 'R10.i', 'R10.v', 'R10.c', 'R10.h', 'R03.c', 'R09.k', 'R09.s')
 
 
 def run(prog, rec, tier):
@@ -13,6 +13,8 @@ def run(prog, rec, tier):
     M.history()
     A = aes_rules.AesRules(prog, rec)
     A.key_load()
+    from . import static_rules
+    static_rules.scoped_statics(prog, rec, 'R09.s', 'R09.s@kernel/multi_aes/aes::objects-share-no-state', ('kernel/multi_aes/aes',), 'the block / mode code')
     rec.extra['explanation'] = (
         'For each of the ten (direction, type) pairs the real factory and constructors build the stream object from symbolic key and IV; one '
         'call of its runcry on a symbolic block is interpreted over byte terms with the block cipher as an uninterpreted 16-byte function '
